@@ -138,6 +138,9 @@ class PbnWriter(Writer):
                                 taken_tricks))
         # TODO: Implement optional fields.
 
+        # An empty line ends the game: the next board result is a new game.
+        self.writer.write('\n')
+
 
 class Scoring(Enum):
     """PBN Scoring systems.
